@@ -38,9 +38,9 @@ type symbol struct {
 }
 
 var alphabet = []symbol{
-	{"start", "valid"}, {"start", "key0"}, {"start", "key31"}, {"start", "key33"},
+	{"start", "valid"}, {"start", "key0"}, {"start", "key31"}, {"start", "key33"}, {"start", "zero32"}, {"start", "low-order"}, {"start", "ff32"},
 	{"finish", "genuine"}, {"finish", "wrong-key-signature"}, {"finish", "stale-material"}, {"finish", "reordered-material"},
-	{"finish", "replay-earlier-exchange"}, {"finish", "replay-other-connection"}, {"finish", "unknown-name"}, {"finish", "accessory-name-garbage-sig"},
+	{"finish", "replay-earlier-exchange"}, {"finish", "replay-stale-genuine"}, {"finish", "replay-other-connection"}, {"finish", "unknown-name"}, {"finish", "accessory-name-garbage-sig"},
 	{"finish", "accessory-name-self-signed"}, {"finish", "removed-controller"}, {"finish", "sealed-wrong-key"}, {"finish", "sealed-zero-key"},
 	{"finish", "short"}, {"finish", "empty"}, {"finish", "known-name-empty-sig"}, {"finish", "tampered-ciphertext"}, {"finish", "genuine-other-controller"},
 }
@@ -59,8 +59,12 @@ type peer struct {
 	cur       exchange
 	prev      exchange // the exchange before cur (for stale material)
 	lastGood  []byte   // a genuine M3 built for an earlier exchange on this connection
+	pending   []byte   // a genuine M3 for the CURRENT exchange, built but not necessarily sent
+	stale     []byte   // a genuine M3 of an exchange that is over (withheld or consumed)
 	verified  bool     // model
 	knownKeys [][]byte // shared secrets the peer could use for a session
+	// the exchanges the recorded finishes were built for
+	pendingFor, staleFor, lastGoodFor exchange
 }
 
 type world struct {
@@ -84,6 +88,19 @@ func buildStart(w *world, variant string) (msg []byte, priv, pub [32]byte) {
 		return refctl.VerifyM1(pub[:31]), priv, pub
 	case "key33":
 		return refctl.VerifyM1(append(pub[:], 7)), priv, pub
+	case "zero32":
+		pub = [32]byte{}
+		return refctl.VerifyM1(pub[:]), priv, pub
+	case "low-order":
+		// a point of order 8 (RFC 7748 / curve25519 small-subgroup list)
+		lo := []byte{0xe0, 0xeb, 0x7a, 0x7c, 0x3b, 0x41, 0xb8, 0xae, 0x16, 0x56, 0xe3, 0xfa, 0xf1, 0x9f, 0xc4, 0x6a, 0xda, 0x09, 0x8d, 0xeb, 0x9c, 0x32, 0xb1, 0xfd, 0x86, 0x62, 0x05, 0x16, 0x5f, 0x49, 0xb8, 0x00}
+		copy(pub[:], lo)
+		return refctl.VerifyM1(pub[:]), priv, pub
+	case "ff32":
+		for i := range pub {
+			pub[i] = 0xff
+		}
+		return refctl.VerifyM1(pub[:]), priv, pub
 	}
 	panic(variant)
 }
@@ -139,7 +156,14 @@ func buildFinish(w *world, p *peer, variant string) (msg []byte, genuine bool) {
 		return refctl.VerifyM3(ex.encKey, sub), false
 	case "replay-earlier-exchange":
 		if p.lastGood != nil {
-			return p.lastGood, false // built for an exchange with another controller ephemeral key
+			return p.lastGood, p.cur.open && sameExchange(p.lastGoodFor, p.cur)
+		}
+		return refctl.VerifyM3Raw(make([]byte, 40)), false
+	case "replay-stale-genuine":
+		if p.stale != nil {
+			// genuine for an exchange on this connection that is over; it is genuine again only if the current
+			// exchange has byte-identical parameters (possible when the peer repeats a fixed public key)
+			return p.stale, p.cur.open && sameExchange(p.staleFor, p.cur)
 		}
 		return refctl.VerifyM3Raw(make([]byte, 40)), false
 	case "replay-other-connection":
@@ -222,9 +246,36 @@ func applyStartResponse(p *peer, status int, body []byte, priv, pub [32]byte) {
 	if err != nil {
 		return
 	}
+	if lowOrder(pub) {
+		// the controller "key" is a small-order point: whatever the accessory's secret, the shared secret is all zero
+		sh = make([]byte, 32)
+	}
 	p.prev = p.cur
+	if p.pending != nil {
+		p.stale, p.staleFor = p.pending, p.pendingFor
+		p.pending = nil
+	}
 	p.cur = exchange{priv: priv, pub: pub, accPub: ap, shared: sh, encKey: refctl.VerifyEncKey(sh), open: true}
 	p.knownKeys = append(p.knownKeys, sh)
+}
+
+// prebuild prepares (without sending) the genuine finish of the current exchange.
+func prebuild(w *world, p *peer) {
+	if p.cur.open && len(w.ctrls) > 0 {
+		me := w.ctrls[0]
+		p.pending = refctl.VerifyM3(p.cur.encKey, refctl.VerifyM3Plain(me.ID, me.LTSK, p.cur.pub[:], p.cur.accPub))
+		p.pendingFor = p.cur
+	}
+}
+
+// closeExchange is called after every finish and after a rejected start.
+func closeExchange(p *peer) {
+	if p.pending != nil {
+		p.stale, p.staleFor = p.pending, p.pendingFor
+		p.pending = nil
+	}
+	p.prev = p.cur
+	p.cur.open = false
 }
 
 // isErrorResponse: non-2xx, or a TLV carrying an error item.
@@ -294,8 +345,7 @@ func inprocHistory(hno int, seq []symbol, nctrl int, withRemoved bool, rnd *rand
 				// complete the exchange there, so that the recorded finish is stale everywhere
 				w.otherConnGood, _ = buildFinish(w, c.p, "genuine")
 				serve(ep, c.sc, w.otherConnGood)
-				c.p.prev = c.p.cur
-				c.p.cur.open = false
+				closeExchange(c.p)
 			}
 		}
 	}
@@ -314,12 +364,14 @@ func inprocHistory(hno int, seq []symbol, nctrl int, withRemoved bool, rnd *rand
 			msg, genuine = buildFinish(w, c.p, sym.Var)
 			if genuine {
 				// remember it for later replays (after the next start it is stale)
-				c.p.lastGood = msg
+				c.p.lastGood, c.p.lastGoodFor = msg, c.p.cur
 			}
 		}
-		before := c.sess.Decrypter() != nil
+		sessBefore := c.sess.Decrypter()
+		before := sessBefore != nil
 		status, body, panicText := serve(ep, c.sc, msg)
-		after := c.sess.Decrypter() != nil
+		sessAfter := c.sess.Decrypter()
+		after := sessAfter != nil
 		run.Count("messages", 1)
 		run.Distinct("symbol", sym.Kind+":"+sym.Var)
 		state := "no-exchange"
@@ -339,17 +391,19 @@ func inprocHistory(hno int, seq []symbol, nctrl int, withRemoved bool, rnd *rand
 		}
 		if sym.Kind == "start" {
 			applyStartResponse(c.p, status, body, priv, pub)
-			if after != before {
+			if after != before || sessAfter != sessBefore {
 				run.Violation("inproc:start:verified-state-changed", "a start message changed the verified state of the connection", wit())
 				return
 			}
-			if sym.Var != "valid" && panicText == "" && status != 0 && !isErrorResponse(status, body) {
+			if wrongLength(sym.Var) && panicText == "" && status != 0 && !isErrorResponse(status, body) {
 				run.Violation("inproc:start:"+sym.Var+":not-answered-with-error", fmt.Sprintf("a start request with a %s public key was answered without an error (status %d)", sym.Var, status), wit())
 				return
 			}
-			if sym.Var != "valid" {
-				// a rejected start does not open an exchange
-				c.p.cur.open = false
+			if panicText != "" || status == 0 || isErrorResponse(status, body) {
+				// a rejected start does not open an exchange (and ends the one that was open)
+				closeExchange(c.p)
+			} else {
+				prebuild(w, c.p)
 			}
 			continue
 		}
@@ -361,7 +415,7 @@ func inprocHistory(hno int, seq []symbol, nctrl int, withRemoved bool, rnd *rand
 			}
 			// (whether a genuine finish is accepted is C04's business)
 		} else {
-			if after && !before {
+			if (after && !before) || sessAfter != sessBefore {
 				run.Violation("inproc:finish:"+sym.Var+":verified", fmt.Sprintf("a finish message that is not genuine (%s) verified the connection; the session key is derived from a secret the peer knows", sym.Var), wit())
 				return
 			}
@@ -372,8 +426,7 @@ func inprocHistory(hno int, seq []symbol, nctrl int, withRemoved bool, rnd *rand
 			run.Count("forged_finishes_refused", 1)
 		}
 		// every finish closes the exchange
-		c.p.prev = c.p.cur
-		c.p.cur.open = false
+		closeExchange(c.p)
 	}
 	run.SampleAt(hno, func() interface{} { return map[string]interface{}{"sequence": seq, "stored_controllers": nctrl} })
 }
@@ -436,20 +489,21 @@ func fullStackHistory(hno int, a *app.App, w *world, seq []symbol) {
 		rec["response"] = vf.Hex(m.Body)
 		if sym.Kind == "start" {
 			applyStartResponse(p, m.Status, m.Body, priv, pub)
-			if sym.Var != "valid" {
-				p.cur.open = false
-				if !isErrorResponse(m.Status, m.Body) {
-					run.Violation("fullstack:start:"+sym.Var+":not-answered-with-error", "a start request with an invalid public key was answered without an error", wit())
-					return
-				}
+			if wrongLength(sym.Var) && !isErrorResponse(m.Status, m.Body) {
+				run.Violation("fullstack:start:"+sym.Var+":not-answered-with-error", "a start request with an invalid public key was answered without an error", wit())
+				return
+			}
+			if isErrorResponse(m.Status, m.Body) {
+				closeExchange(p)
+			} else {
+				prebuild(w, p)
 			}
 		} else {
 			if !isErrorResponse(m.Status, m.Body) {
 				run.Violation("fullstack:finish:"+sym.Var+":not-answered-with-error", fmt.Sprintf("a finish message that is not genuine (%s) was answered without an error (status %d, body %x)", sym.Var, m.Status, m.Body), wit())
 				return
 			}
-			p.prev = p.cur
-			p.cur.open = false
+			closeExchange(p)
 		}
 		// is the connection still unverified and in plaintext?  (a) a plaintext request is answered in plaintext
 		// (every second history leaves the connection alone so that the ciphertext probe (b) meets an intact connection)
@@ -623,4 +677,19 @@ func main() {
 	r.Floor("verified_by_genuine_finish", int(r.Counter("verified_by_genuine_finish")), 50)
 	r.Floor("forged_finishes_refused+violations", int(r.Counter("forged_finishes_refused"))+r.ViolationCount(), 1000)
 	r.Finish()
+}
+
+func wrongLength(v string) bool { return v == "key0" || v == "key31" || v == "key33" }
+
+// lowOrder reports whether pub is one of the small-order points the alphabet uses (or all 0xff, which is
+// reduced mod p to a regular point and therefore NOT low order).
+func lowOrder(pub [32]byte) bool {
+	if pub == ([32]byte{}) {
+		return true
+	}
+	return pub[0] == 0xe0 && pub[1] == 0xeb && pub[31] == 0x00
+}
+
+func sameExchange(a, b exchange) bool {
+	return a.pub == b.pub && bytes.Equal(a.accPub, b.accPub) && bytes.Equal(a.shared, b.shared)
 }
